@@ -91,7 +91,10 @@ class HierDictDocument(DictDocument):
             # the key of the message is its element name: that's the type
             # name for wrapper messages and the method name for bare ones.
             class_name = body_class.get_element_name()
-            if self.ignore_wrappers:
+            # only the object reader knows how to take the message out of
+            # its wrapper.
+            if self.ignore_wrappers or issubclass(body_class, Array) \
+                             or not issubclass(body_class, ComplexModelBase):
                 doc = doc.get(class_name, None)
 
             if not issubclass(body_class, ComplexModelBase):
